@@ -177,6 +177,7 @@ func checkC15(c *Ctx, r *Report) {
 	c15Order(c, r)
 	c15AllDefs(c, r)
 	c15Format(c, r)
+	importRulesFrom(c, r, "C18", func(c *Ctx, sub *Report) { c18Num(c, sub) }, "C15.NUMTEXT", "every number text the value printer can emit for a default is read back as a number (C18.NUM): the float formatter prints exponent forms without a decimal point, so the reader may not decide by the presence of a point", "C18.NUM")
 	c15Fresh(c, r)
 }
 
